@@ -32,6 +32,13 @@ type Prosumer struct {
 	OnError       func(error)
 	OnSubscribe   func(topic string)
 	OnUnsubscribe func(topic string)
+	// one poll loop per Prosumer: polling tells that it runs, again that a Subscribe has come
+	// since its last poll started (a loop about to end polls once more instead)
+	loop struct {
+		sync.Mutex
+		polling bool
+		again   bool
+	}
 }
 
 type prosumer struct {
@@ -136,8 +143,25 @@ func (p *Prosumer) call(callback Callback, message Message) {
 	}
 }
 
+// poll runs the poll loop until the broker knows no subscription of this client any more.
+func (p *Prosumer) poll() {
+	for {
+		p.message()
+		p.loop.Lock()
+		if !p.loop.again {
+			p.loop.polling = false
+			p.loop.Unlock()
+			return
+		}
+		p.loop.Unlock()
+	}
+}
+
 func (p *Prosumer) message() {
 	for {
+		p.loop.Lock()
+		p.loop.again = false
+		p.loop.Unlock()
 		topics, err := p.proxy.message()
 		if err == nil {
 			if topics == nil {
@@ -168,7 +192,16 @@ func (p *Prosumer) Subscribe(topic string, callback Callback) (result bool, err 
 	if p.ID() != "" {
 		p.callbacks.Store(topic, callback)
 		result, err = p.proxy.subscribe(topic)
-		go p.message()
+		// a second loop would dispatch its batches concurrently with the first one's: a later
+		// batch of a topic could overtake an earlier one
+		p.loop.Lock()
+		if p.loop.polling {
+			p.loop.again = true
+		} else {
+			p.loop.polling = true
+			go p.poll()
+		}
+		p.loop.Unlock()
 		p.onSubscribe(topic)
 	}
 	return
